@@ -7,6 +7,8 @@ import (
 	"strings"
 	"sync"
 	"sync/atomic"
+
+	"github.com/pancsta/asyncmachine-go/internal/verifhook"
 )
 
 // Transition represents processing of a single mutation within a machine.
@@ -752,6 +754,7 @@ func (t *Transition) emitEvents() Result {
 			m.setActiveStates(called, t.TargetStates(), t.IsAuto())
 			// gather new clock values, overwrite fake TimeAfter
 			m.activeStatesMx.Unlock()
+			verifhook.Point("tx.applied")
 
 			// cache for subscriptions, mind partially accepted auto states
 			if t.IsAuto() {
@@ -832,6 +835,7 @@ func (t *Transition) emitEvents() Result {
 	m.logEntries = nil
 	m.logEntriesLock.Unlock()
 	t.IsCompleted.Store(true)
+	verifhook.Point("tx.before-end")
 
 	// tracers
 	m.tracersMx.RLock()
